@@ -587,7 +587,7 @@ func newWorld(cfg Cfg, scheme *k8sruntime.Scheme, tw *tracefmt.Writer) *World {
 		objs = append(objs, pod)
 		br := &v1alpha2.BindRequest{
 			ObjectMeta: metav1.ObjectMeta{Name: brName(p), Namespace: podNS},
-			Spec:       v1alpha2.BindRequestSpec{PodName: podName(p), SelectedNode: nodeName, BackoffLimit: ptr.To(int32(5))},
+			Spec:       v1alpha2.BindRequestSpec{PodName: podName(p), SelectedNode: nodeName, BackoffLimit: ptr.To(int32(8))},
 			Status:     v1alpha2.BindRequestStatus{Phase: v1alpha2.BindRequestPhasePending},
 		}
 		switch {
